@@ -1206,7 +1206,7 @@ func sliceIndexes(args []cty.Value) (int, int, bool, error) {
 	list, _ := args[0].Unmark()
 
 	// If it's a tuple then we always know the length by the type, but collections might be unknown or have unknown length
-	if list.Type().IsTupleType() || list.Length().IsKnown() {
+	if list.Type().IsTupleType() || (list.IsKnown() && list.Length().IsKnown()) {
 		length = list.LengthInt()
 		lengthKnown = true
 	}
